@@ -22,15 +22,17 @@ import (
 type C18Peer struct {
 	Tail           uint64 `json:"tail"`
 	Head           uint64 `json:"head"`
-	SlowCall       int    `json:"slow_call"`        // index of the range call answered after the request timeout; -1 never
-	DisconnectAtMs int    `json:"disconnect_at_ms"` // virtual ms after the call starts; -1 never
+	SlowCall       int    `json:"slow_call"`             // index of the range call answered after the request timeout; -1 never
+	DisconnectAtMs int    `json:"disconnect_at_ms"`      // virtual ms after the call starts; -1 never
+	BreakAfter     int    `json:"break_after,omitempty"` // its first answer breaks (stream reset) after this many frames; 0 never
 }
 
 type C18Scenario struct {
 	From  uint64    `json:"from"`
 	Len   int       `json:"len"` // number of headers requested: to = from+1+len
 	Chunk uint64    `json:"chunk"`
-	Peers []C18Peer `json:"peers"` // peer 0 is always fully capable and fault-free
+	Peers []C18Peer `json:"peers"`           // peer 0 is always fully capable and fault-free ...
+	Split bool      `json:"split,omitempty"` // ... unless split: peers 0 and 1 (both fault-free) hold the range only together
 }
 
 const c18ChainLen = 260
@@ -64,6 +66,8 @@ func genC18(t *rapid.T) C18Scenario {
 			p.SlowCall = rapid.SampledFrom([]int{0, 0, 0, 1, 2}).Draw(t, "slowcall")
 		case 1:
 			p.DisconnectAtMs = rapid.SampledFrom([]int{0, 1, 2, 5, 50, 900, 1100}).Draw(t, "disc")
+		case 2:
+			p.BreakAfter = rapid.IntRange(1, 5).Draw(t, "breakafter")
 		}
 		s.Peers = append(s.Peers, p)
 	}
@@ -130,7 +134,11 @@ func runC18(t *testing.T, s C18Scenario) (res Result) {
 			stores = append(stores, st)
 			sl := &slowStore{Store: st, slowCall: p.SlowCall, slowFor: timeout + 200*time.Millisecond}
 			slows = append(slows, sl)
-			srv, err := p2p.NewExchangeServer[*vh.Header](ne.hosts[i+1], sl, p2p.WithNetworkID[p2p.ServerParameters](netID))
+			srvHost := ne.hosts[i+1]
+			if p.BreakAfter > 0 {
+				srvHost = &breakHost{Host: srvHost, n: p.BreakAfter}
+			}
+			srv, err := p2p.NewExchangeServer[*vh.Header](srvHost, sl, p2p.WithNetworkID[p2p.ServerParameters](netID))
 			if err != nil {
 				res.failf("HARNESS: server: %v", err)
 				return
@@ -184,13 +192,16 @@ func runC18(t *testing.T, s C18Scenario) (res Result) {
 		got, gerr := ex.GetRangeByHeight(ctx, from, to)
 		elapsed := time.Since(t0)
 
-		nSlow, nDisc, nPartial, nNotFound := 0, 0, 0, 0
+		nSlow, nDisc, nPartial, nNotFound, nBreak := 0, 0, 0, 0, 0
 		for i, p := range s.Peers {
 			if slows[i].slowHit {
 				nSlow++
 			}
-			if p.DisconnectAtMs >= 0 {
+			if p.DisconnectAtMs >= 0 || p.BreakAfter > 0 {
 				nDisc++
+			}
+			if p.BreakAfter > 0 {
+				nBreak++
 			}
 			if p.Head < s.From+1 || p.Tail > s.From+1 {
 				nNotFound++
@@ -200,14 +211,20 @@ func runC18(t *testing.T, s C18Scenario) (res Result) {
 		}
 		chunks := (uint64(s.Len) + s.Chunk - 1) / s.Chunk
 		faults := nSlow + nDisc + nPartial + nNotFound
-		res.NonTrivial = (chunks >= 2 && faults >= 1) || uint64(s.Len)%s.Chunk != 0 || s.Chunk == 1
+		res.NonTrivial = (chunks >= 2 && faults >= 1) || uint64(s.Len)%s.Chunk != 0 || s.Chunk == 1 || s.Split
 		res.SigKey = []any{s.Len, s.Chunk, len(s.Peers), nSlow, nDisc, nPartial, nNotFound, s.From % 3}
 		res.label(fmt.Sprintf("chunks>=2:%v", chunks >= 2), fmt.Sprintf("peers=%d", len(s.Peers)))
 		if nSlow > 0 {
 			res.label("timeout_once")
 		}
+		if s.Split {
+			res.label("no_single_capable_peer")
+		}
 		if nDisc > 0 {
 			res.label("disconnect")
+		}
+		if nBreak > 0 {
+			res.label("stream_breaks_mid_answer")
 		}
 		if nPartial > 0 {
 			res.label("prefix_only_peer")
@@ -237,6 +254,9 @@ func runC18(t *testing.T, s C18Scenario) (res Result) {
 			return
 		}
 
+		if s.Split {
+			return
+		}
 		// round trips through the wire encoding from the trusted (capable) peer
 		hd, err := ex.Head(ctx)
 		if err != nil || !vh.Equal(hd, chain.At(c18ChainLen)) {
